@@ -188,6 +188,18 @@ func c11Exec(w *c11World, prog []c11Node) (flat []c11Flat, mustReject bool, ambi
 					flat = append(flat, c11Flat{Method: mm, Path: prefix + n.Path, IDs: all})
 				}
 				w.f.Routes(n.Path, strings.Join(c08KnownMethods, ","), w.hs(own)...)
+			case "routes-star":
+				// the wild card as the method list of Routes, and as a later method string: every method, as Any
+				own := ids(n.NH)
+				all := append(append([]int{}, outer...), own...)
+				for _, mm := range c08KnownMethods {
+					flat = append(flat, c11Flat{Method: mm, Path: prefix + n.Path, IDs: all})
+				}
+				if n.NH%2 == 1 {
+					w.f.Routes(n.Path, "*", w.hs(own)...)
+				} else {
+					w.f.Routes(n.Path, " * ", w.hs(own)...)
+				}
 			case "routes-mixedcase":
 				// method names in lower and mixed case, in a comma list and as a separate string: the methods they name
 				own := ids(n.NH)
@@ -540,6 +552,11 @@ func c11FlattenOnly(prog []c11Node) (flat []c11Flat, mustReject, amb bool) {
 				for _, mm := range c08KnownMethods {
 					flat = append(flat, c11Flat{Method: mm, Path: prefix + n.Path, IDs: all})
 				}
+			case "routes-star":
+				all := append(append([]int{}, outer...), ids(n.NH)...)
+				for _, mm := range c08KnownMethods {
+					flat = append(flat, c11Flat{Method: mm, Path: prefix + n.Path, IDs: all})
+				}
 			case "routes-mixedcase":
 				all := append(append([]int{}, outer...), ids(n.NH)...)
 				for _, mm := range []string{"GET", "POST", "PUT"} {
@@ -738,6 +755,13 @@ func c11Programs(thorough bool) [][]c11Node {
 			lf := c11Node{Kind: "combo-across-scopes", Path: pth, NH: nh}
 			progs = append(progs, []c11Node{lf}, []c11Node{{Kind: "autohead-on"}, lf}, []c11Node{{Kind: "group", Path: "/g", NH: 1, Children: []c11Node{lf, {Kind: "get", Path: "/v", NH: 1}}}, {Kind: "post", Path: "/v", NH: 1}},
 				[]c11Node{{Kind: "group", Path: "/{p}", NH: 2, Children: []c11Node{{Kind: "group", Path: "/g", NH: 0, Children: []c11Node{lf}}}}})
+		}
+	}
+	// Routes with the wild card as its method list
+	for _, pth := range []string{"/a", "/{x}"} {
+		for _, nh := range []int{1, 2} {
+			lf := c11Node{Kind: "routes-star", Path: pth, NH: nh}
+			progs = append(progs, []c11Node{lf}, []c11Node{{Kind: "group", Path: "/g", NH: 1, Children: []c11Node{lf, {Kind: "get", Path: "/v", NH: 1}}}}, []c11Node{{Kind: "autohead-on"}, lf})
 		}
 	}
 	// Routes with method names in lower and mixed case
